@@ -100,12 +100,12 @@ def elemVarOK (ft : Feat) (Γ : Ctx) (m : XmlMeta) (ci : ClassInfo) (v : XmlVar)
      (metaOf Γ c (targetUri m.qname)).isSome) &&
   (v.init || fixedOK v) && fieldAgreesN ci v
 
-/-- a list wildcard: `List[object]` with default `[]`, no choices; its own (synthetic) qname leads
+/-- a wildcard: `List[object]` with default `[]` or `Optional[object]` with default `None`, no choices; its own (synthetic) qname leads
 `find_children` back to it and to nothing else -/
 def wildVarOK (m : XmlMeta) (ci : ClassInfo) (v : XmlVar) : Bool :=
-  v.isWildcard && v.listElement && v.init && !v.mixed && !v.tokens && !v.nillable && !v.isClazzUnion &&
+  v.isWildcard && v.init && !v.mixed && !v.tokens && !v.nillable && !v.isClazzUnion &&
   v.wrapperQName.isNone && v.sequence.isNone && v.elements.isEmpty && v.clazz.isNone &&
-  decide (v.default = .listFactory) && decide (1 ≤ v.index) && !v.qname.isEmpty &&
+  decide (v.default = if v.listElement then .listFactory else .none) && decide (1 ≤ v.index) && !v.qname.isEmpty &&
   decide (m.findChildren v.qname = [v]) && !m.wrappers.any (·.1 = v.qname) && m.text.isNone &&
   fieldAgreesN ci v
 
@@ -301,9 +301,15 @@ def elemValOK (inh : Bool) (e : BEnv) (Γ : Ctx) (m : XmlMeta) (ci : ClassInfo) 
     (rec : ClassId → Option QN → Val → Bool) (x : Val) : Bool :=
   (var.init || fixedVal var x) &&
   if var.isWildcard then
-    (match x with
-     | .list xs => xs.all (wildItemOK e Γ m var)
-     | _ => false)
+    (if var.listElement then
+      (match x with
+       | .list xs => xs.all (wildItemOK e Γ m var)
+       | _ => false)
+     else
+      -- a single wildcard holds one generic element (a second child would be nested under a new one)
+      (match x with
+       | .none => fdNone ci var.name
+       | y => wildItemOK e Γ m var y))
   else
   match var.clazz with
   | none =>
